@@ -5,15 +5,20 @@
    every token and at every parse call site (a mutation of a binding power, of a
    call-site level or of the projection stop constant breaks these theorems);
    (2) parentheses are transparent for the AST.
-   (3) parse (render e) = compile e for every well-precedenced tree e (the Pratt
-   lemma, Proofs/Pratt.v) — see C03_parse_render below when present; until that
-   proof is complete the statement is covered by this check's correspondence run
-   only: every generated tree satisfying wp is spelled (minimal, fully
-   parenthesised, with whitespace) and the library's AST is compared with
-   compile e. *)
+   (3) the Pratt theorem (Proofs/ParserComplete.v): for every well-precedenced
+   tree e — wp: an operand to the left of an operator of level p is not open
+   below p, an operand to the right is wholly tighter than p, a projection's
+   right-hand side extends as far as the rules say — the parser, on ANY token
+   list that spells e (the token types and values of render e, arbitrary
+   positions, a final EOF), builds exactly compile e.  With C04_accepted_is_a_tree
+   (whatever is accepted is compile of some tree) this is the statement that
+   parser.go implements the precedence, associativity and projection-scope rules.
+   The step from text to tokens is the lexer (C14) and is exercised by the run:
+   every generated tree in minimal, fully parenthesised and randomly spaced
+   spelling. *)
 From Coq Require Import Floats.
-From JM Require Import Model.Base Model.Num Model.Value Model.Lexer Model.Parser Model.Api
-     Spec.Grammar Proofs.TablesOk Inst.FloatNum Run.Checker.
+From JM Require Import Model.Base Model.Num Model.Value Model.JsonText Model.Lexer Model.Parser Model.Api
+     Spec.Grammar Proofs.TablesOk Proofs.ParserTotal Proofs.ParserComplete Inst.FloatNum Run.Checker.
 From JM Require Import gen.Tables.
 
 (* from loosest to tightest: pipe, or, and, comparators, flatten, wildcard and
@@ -49,9 +54,37 @@ Theorem C03_left_associative :
     wp (EOr (EOr a b) c) = true /\ wp (EOr a (EOr b c)) = false.
 Proof. exact or_left_assoc. Qed.
 
+(* ---- the Pratt theorem ---- *)
+(* the JSON text chosen to spell a literal is read back as that literal (C14: the
+   literal token holds the text; for the text json.Marshal writes this is the JSON
+   round trip, proved for strings, checked by the run for whole values) *)
+Variable lit_text : value -> bytes.
+Hypothesis lit_ok : forall v, is_json v = true -> json_unmarshal (lit_text v) = Some v.
+
+Theorem C03_parse_of_any_spelling :
+  forall (e : expr) (ts : list token),
+    wp e = true -> wf_tokens ts ->
+    Spell ts 0 (render lit_text e ++ [tk tEOF []]) ->
+    parse_tokens ts = Ok (compile e).
+Proof. exact (parse_tokens_complete lit_text lit_ok). Qed.
+
+Theorem C03_parse_render :
+  forall e : expr, wp e = true -> parse_tokens (render lit_text e ++ [tk tEOF []]) = Ok (compile e).
+Proof. exact (parse_render lit_text lit_ok). Qed.
+
+(* fuel is immaterial: any two amounts that suffice give the same answer *)
+Theorem C03_fuel_independent :
+  forall ts f f' bp i,
+    parseExpression ts f bp i <> OutOfFuel -> parseExpression ts f' bp i <> OutOfFuel ->
+    parseExpression ts f bp i = parseExpression ts f' bp i.
+Proof. exact ParserFuel.parse_fuel_independent. Qed.
+
 End C03.
 
 Print Assumptions C03_levels_are_ordered.
+Print Assumptions C03_parse_of_any_spelling.
+Print Assumptions C03_parse_render.
+Print Assumptions C03_fuel_independent.
 Print Assumptions C03_binding_powers_realise_the_levels.
 Print Assumptions C03_call_sites_pass_the_right_level.
 Print Assumptions C03_projection_stop.
